@@ -53,6 +53,12 @@ def run(ctx):
     # (the graph dump below model-checks RetryGen19.cfg with its invariants I_DelayIndex / I_Tokens / I_Bound)
     ctx.neg("RetryMC", "RetryNeg3.cfg", expect="I_DelayIndex", workers=2)
     behs = _retry.generate(ctx, "RetryGen19.cfg", ctx.pick(1500, 10000), ctx.pick(0, 3000))
+    # token ledger across RPCs: 2-4 RPCs one after the other on ONE channel with throttling configured, attempts failing /
+    # succeeding per script, some RPCs exhausting maxAttempts; the ledger (one token per counted failure, tokenRatio 0.5 per
+    # success) is carried across the RPCs and every retry / refusal is judged against it
+    behs += _retry.generate(ctx, "RetryGenL.cfg", ctx.pick(700, 6000), 0,
+                            keep=lambda b: any(o["op"] == "newrpc" for o in b["ops"]),
+                            rank=lambda b: sum(o["op"] == "newrpc" for o in b["ops"]) + min(len(b["scripts"]), 6) / 8.0)
     tpath = _retry.execute(ctx, behs, "c19")
     for b in behs:
         ctx.count(b, nontrivial=_retry.nontrivial(b))
